@@ -16,8 +16,12 @@
 //   u same with wait_until(200ns)
 //   N {lock; flag=true; unlock; notify_one}    A {...; notify_all}     n notify_one    a notify_all     Y S as above
 // Thread programs: J(<prog>) spawn a thread running <prog> and join it, D(<prog>) spawn and detach, Y, S.
-// Thread-local programs: 0..3 store &cell[d] into pointer a (int*), 4..7 store &cell[d-4] into pointer b (int*),
-//   8..9 store &lcell[d-8] into pointer c (long*), p read a, q read b, r read c, Y yield.
+// Thread-local programs over five pointers: a, b (int*, null initialiser), c (long*, null initialiser),
+//   d (int*, initialiser &cell[3]), e (long*, initialiser &lcell[1]):
+//   0..3 a = &cell[k]     4..7 b = &cell[k-4]    8..9 c = &lcell[k-8]    A,B d = &cell[0|1]    C,D e = &lcell[0|1]
+//   x a = nullptr   y b = nullptr   z c = nullptr   v d = nullptr   w e = nullptr
+//   p q r s t  read a b c d e (through Get(), operator bool, operator->, == nullptr: all must agree)
+//   Y yield     J(<prog>) spawn a fiber running <prog> (a fiber created after the stores of its parent) and join it
 //
 // Trace vocabulary (besides the runtime's "<fiber>:<op>@m=..;"):
 //   ">f@t;"    the scheduler resumes fiber f, virtual time t (after the tick)
@@ -603,7 +607,12 @@ int gCells[4];
 long gLongCells[2];
 YACLIB_THREAD_LOCAL_PTR(int) gTlA;
 YACLIB_THREAD_LOCAL_PTR(int) gTlB;
-YACLIB_THREAD_LOCAL_PTR(long) gTlC;  // another pointee type: must still be another variable
+YACLIB_THREAD_LOCAL_PTR(long) gTlC;                    // another pointee type: must still be another variable
+YACLIB_THREAD_LOCAL_PTR(int) gTlD = &gCells[3];        // non-null initialiser: every fiber starts with it
+YACLIB_THREAD_LOCAL_PTR(long) gTlE = &gLongCells[1];
+
+// cells are numbered 1..4 (int) and 11..12 (long); 0 = nullptr, 99 = a pointer that is none of ours
+constexpr long kDefault[5] = {0, 0, 0, 4, 12};
 
 long CellIndex(const void* p) {
   if (p == nullptr) {
@@ -619,44 +628,150 @@ long CellIndex(const void* p) {
   return 99;
 }
 
-void RunTls(const std::vector<Node>& prog) {
-  long mine[3] = {0, 0, 0};
-  const char* names[3] = {"a", "b", "c"};
+// one read through every accessor; they must agree with each other
+template <typename Proxy>
+long ReadAll(Proxy& proxy, bool& consistent) {
+  auto* raw = proxy.Get();
+  const bool as_bool = static_cast<bool>(proxy);
+  auto* arrow = proxy.operator->();
+  const bool eq_null = proxy == nullptr;
+  const bool ne_null = proxy != nullptr;
+  consistent = (as_bool == (raw != nullptr)) && arrow == raw && eq_null == (raw == nullptr) && ne_null == (raw != nullptr);
+  return CellIndex(raw);
+}
+
+struct TlsCtx {
+  int next_fiber = 0;
+};
+
+void RunTls(TlsCtx& ctx, const std::vector<Node>& prog) {
+  // what this fiber must read: its own last store (a stored nullptr included), else the variable's initialiser
+  long mine[5] = {kDefault[0], kDefault[1], kDefault[2], kDefault[3], kDefault[4]};
+  const char* names[5] = {"a", "b", "c", "d", "e"};
+  auto store = [&](int var, long cell) {
+    int* ip = cell >= 1 && cell <= 4 ? &gCells[cell - 1] : nullptr;
+    long* lp = cell >= 11 && cell <= 12 ? &gLongCells[cell - 11] : nullptr;
+    switch (var) {
+      case 0:
+        gTlA = ip;
+        break;
+      case 1:
+        gTlB = ip;
+        break;
+      case 2:
+        gTlC = lp;
+        break;
+      case 3:
+        gTlD = ip;
+        break;
+      default:
+        gTlE = lp;
+        break;
+    }
+    mine[var] = cell;
+    vrt::Event(std::string("set") + names[var] + " " + std::to_string(cell));
+  };
   for (const auto& n : prog) {
     int var = -1;
-    long got = 0;
-    if (n.op == 'Y') {
-      Yield();
-    } else if (n.op >= '0' && n.op <= '3') {
-      gTlA = &gCells[n.op - '0'];
-      mine[0] = 1 + (n.op - '0');
-      vrt::Event("seta " + std::to_string(mine[0]));
-    } else if (n.op >= '4' && n.op <= '7') {
-      gTlB = &gCells[n.op - '4'];
-      mine[1] = 1 + (n.op - '4');
-      vrt::Event("setb " + std::to_string(mine[1]));
-    } else if (n.op >= '8' && n.op <= '9') {
-      gTlC = &gLongCells[n.op - '8'];
-      mine[2] = 11 + (n.op - '8');
-      vrt::Event("setc " + std::to_string(mine[2]));
-    } else if (n.op == 'p') {
-      var = 0;
-      got = CellIndex(gTlA.Get());
-    } else if (n.op == 'q') {
-      var = 1;
-      got = CellIndex(gTlB.Get());
-    } else if (n.op == 'r') {
-      var = 2;
-      got = CellIndex(gTlC.Get());
-    } else {
-      vrt::Fail(std::string("bad program token ") + n.op);
-      return;
+    switch (n.op) {
+      case 'Y':
+        Yield();
+        break;
+      case '0': case '1': case '2': case '3':
+        store(0, 1 + (n.op - '0'));
+        break;
+      case '4': case '5': case '6': case '7':
+        store(1, 1 + (n.op - '4'));
+        break;
+      case '8': case '9':
+        store(2, 11 + (n.op - '8'));
+        break;
+      case 'A': case 'B':
+        store(3, 1 + (n.op - 'A'));
+        break;
+      case 'C': case 'D':
+        store(4, 11 + (n.op - 'C'));
+        break;
+      case 'x':
+        store(0, 0);
+        break;
+      case 'y':
+        store(1, 0);
+        break;
+      case 'z':
+        store(2, 0);
+        break;
+      case 'v':
+        store(3, 0);
+        break;
+      case 'w':
+        store(4, 0);
+        break;
+      case 'p':
+        var = 0;
+        break;
+      case 'q':
+        var = 1;
+        break;
+      case 'r':
+        var = 2;
+        break;
+      case 's':
+        var = 3;
+        break;
+      case 't':
+        var = 4;
+        break;
+      case 'J': {
+        const int id = ++ctx.next_fiber;
+        char done = 0;
+        Call("spawn " + std::to_string(id));
+        yaclib_std::thread child{[&ctx, &n, &done] {
+          RunTls(ctx, n.body);
+          done = 1;
+          vrt::Event("exit");
+        }};
+        Call("join " + std::to_string(id));
+        child.join();
+        Ret("join", done);
+        if (!done) {
+          vrt::Fail("join returned before the thread function finished");
+        }
+        break;
+      }
+      default:
+        vrt::Fail(std::string("bad program token ") + n.op);
+        return;
     }
     if (var >= 0) {
+      bool consistent = true;
+      long got = 0;
+      switch (var) {
+        case 0:
+          got = ReadAll(gTlA, consistent);
+          break;
+        case 1:
+          got = ReadAll(gTlB, consistent);
+          break;
+        case 2:
+          got = ReadAll(gTlC, consistent);
+          break;
+        case 3:
+          got = ReadAll(gTlD, consistent);
+          break;
+        default:
+          got = ReadAll(gTlE, consistent);
+          break;
+      }
       vrt::Event(std::string("get") + names[var] + " " + std::to_string(got));
+      if (!consistent) {
+        vrt::Fail(std::string("thread-local pointer ") + names[var] + ": Get(), operator bool, operator-> and == nullptr disagree");
+      }
       if (got != mine[var]) {
         vrt::Fail(std::string("thread-local pointer ") + names[var] + " is not this fiber's own variable: read cell " +
-                  std::to_string(got) + " but this fiber stored " + std::to_string(mine[var]) + " into it");
+                  std::to_string(got) + " but this fiber " +
+                  (mine[var] == kDefault[var] && got != 0 ? "should see cell " : "last stored cell ") +
+                  std::to_string(mine[var]) + " (0 = nullptr)");
       }
     }
   }
@@ -710,9 +825,15 @@ void RunNamed(const std::string& name) {
       std::size_t i = 0;
       parsed.push_back(Parse(p, i));
     }
-    vrt::Event("slots " + std::to_string(gTlA._i) + " " + std::to_string(gTlB._i) + " " + std::to_string(gTlC._i));
+    vrt::Event("slots " + std::to_string(gTlA._i) + " " + std::to_string(gTlB._i) + " " + std::to_string(gTlC._i) + " " +
+               std::to_string(gTlD._i) + " " + std::to_string(gTlE._i));
+    // the initialisers, as the library recorded them (the defaults map is process-wide)
+    vrt::Event("dflt " + std::to_string(gTlD._i) + " " + std::to_string(kDefault[3]));
+    vrt::Event("dflt " + std::to_string(gTlE._i) + " " + std::to_string(kDefault[4]));
+    TlsCtx ctx;
+    ctx.next_fiber = static_cast<int>(progs.size());
     SpawnAndJoin(static_cast<int>(progs.size()), [&](int me) {
-      RunTls(parsed[static_cast<std::size_t>(me - 1)]);
+      RunTls(ctx, parsed[static_cast<std::size_t>(me - 1)]);
     });
   } else if (MakeLock(cls) != nullptr) {
     LockScenario(cls, progs);
